@@ -23,10 +23,13 @@ package scen
 //	           thread of the execution)
 //	prefix     none | a stream of the same method that completed before | of the other method
 //
-// Menus (quick): streams2 = {canceler, full} x 3 prefixes x {same method, different methods} x
-// {block||block, block||return, return||return} + shutdown: 36 scenarios of 3 threads;
-// streams3 = 3 calls + shutdown (4 threads), chain canceler: 3 scenarios; nocancel: 2; unary: 4.
-// Bounds: every schedule with <= 2 preemptions (thorough: 3, and all interleavings for streams2).
+// Menus: streams2 = {canceler, full} x 3 prefixes x {same method, different methods} x
+// {block||block, block||return, return||return} + shutdown thread + the canceler's goroutine:
+// 36 scenarios of 4 threads (quick: 30, the full chain after an other-method prefix is thorough
+// only); streams3 = 3 calls + shutdown + goroutine (5 threads), chain canceler: 3; nocancel: 2;
+// unary: 4. Bounds (quick / thorough): canceler streams2 <= 2 / <= 3 preemptions and, without
+// prefix, all interleavings; full streams2 <= 1 / <= 2; streams3 <= 1 / <= 2; nocancel and unary
+// <= 2 / <= 3 and all interleavings for two threads.
 //
 // Oracle. Scenarios with a shutdown thread use the PROJECTION differential (vrt.Scenario.Env):
 // every call's observable -- returned status, what its handler saw in its context (request id,
@@ -72,6 +75,9 @@ func (c gCall) String() string {
 	m := strings.TrimPrefix(c.method, "/svc/")
 	if c.unary {
 		return "unary:" + m + ":id=" + c.reqID
+	}
+	if c.reqID != "tag" {
+		return m + ":" + c.handler + ":id=" + c.reqID
 	}
 	return m + ":" + c.handler
 }
@@ -273,16 +279,17 @@ func gDiffClass(got, want string) string {
 }
 
 type gOpts struct {
-	shutdown     bool
-	thoroughOnly bool
-	noComplete   bool
-	bound        int
+	shutdown      bool
+	thoroughOnly  bool
+	noComplete    bool
+	bound         int // quick preemption bound (0 = default 2)
+	thoroughBound int // thorough preemption bound (0 = default 3)
 }
 
 func gScenario(chain string, pre *gCall, o gOpts, calls ...gCall) vrt.Scenario {
 	var names []string
 	sc := vrt.Scenario{Family: "c20G", SigName: "c20G/" + chain, DiffClass: gDiffClass, ThoroughOnly: o.thoroughOnly,
-		NoThoroughComplete: o.noComplete, Bound: o.bound,
+		NoThoroughComplete: o.noComplete, Bound: o.bound, ThoroughBound: o.thoroughBound,
 		Setup: func() any { return gMount(chain) }}
 	preName := "-"
 	if pre != nil {
@@ -312,19 +319,32 @@ func grpcScenarios() []vrt.Scenario {
 	w := func(h string) gCall { return gCall{method: "/svc/Watch", handler: h, reqID: "tag"} }
 	t := func(h string) gCall { return gCall{method: "/svc/Tail", handler: h, reqID: "tag"} }
 	prefixes := []*gCall{nil, {method: "/svc/Watch", handler: "return", reqID: "tag"}, {method: "/svc/Tail", handler: "return", reqID: "tag"}}
-	// streams2: two calls and the shutdown
+	// streams2: two calls and the shutdown (with the canceler's goroutine: 4 threads). The full
+	// chain has ~3x the scheduling points of the bare canceler: <= 1 preemption in the quick tier.
 	for _, chain := range []string{"canceler", "full"} {
-		for _, pre := range prefixes {
+		o := gOpts{shutdown: true}
+		if chain == "full" {
+			o = gOpts{shutdown: true, bound: 1, thoroughBound: 2, noComplete: true}
+		}
+		for pi, pre := range prefixes {
+			o := o
+			if chain == "full" && pi == 2 {
+				o.thoroughOnly = true
+			}
+			if pi > 0 {
+				o.noComplete = true
+			}
 			for _, hs := range [][2]string{{"block", "block"}, {"block", "return"}, {"return", "return"}} {
-				out = append(out, gScenario(chain, pre, gOpts{shutdown: true}, w(hs[0]), w(hs[1])))
-				out = append(out, gScenario(chain, pre, gOpts{shutdown: true}, w(hs[0]), t(hs[1])))
+				out = append(out, gScenario(chain, pre, o, w(hs[0]), w(hs[1])))
+				out = append(out, gScenario(chain, pre, o, w(hs[0]), t(hs[1])))
 			}
 		}
 	}
-	// streams3: three calls and the shutdown (4 threads)
-	out = append(out, gScenario("canceler", nil, gOpts{shutdown: true, noComplete: true}, w("block"), w("block"), t("block")))
-	out = append(out, gScenario("canceler", nil, gOpts{shutdown: true, noComplete: true}, w("block"), w("return"), w("block")))
-	out = append(out, gScenario("canceler", prefixes[1], gOpts{shutdown: true, noComplete: true}, w("block"), t("return"), t("block")))
+	// streams3: three calls and the shutdown (5 threads), <= 1 preemption (thorough 2)
+	o3 := gOpts{shutdown: true, noComplete: true, bound: 1, thoroughBound: 2}
+	out = append(out, gScenario("canceler", nil, o3, w("block"), w("block"), t("block")))
+	out = append(out, gScenario("canceler", nil, o3, w("block"), w("return"), w("block")))
+	out = append(out, gScenario("canceler", prefixes[1], o3, w("block"), t("return"), t("block")))
 	// nocancel: request id / trace / log interceptors only, no shutdown
 	out = append(out, gScenario("nocancel", nil, gOpts{}, w("return"), gCall{method: "/svc/Watch", handler: "return", reqID: "long"}))
 	out = append(out, gScenario("nocancel", prefixes[2], gOpts{}, w("return"), t("return"), gCall{method: "/svc/Tail", handler: "return", reqID: ""}))
